@@ -386,7 +386,7 @@ def check(ctx):
 
     # ------------------------------------------------------------------ R5
     sr = repo.cls("liesel.goose.engine.SamplingResults")
-    post = ("lambda", ("config",), ("cmp", "==", ("a", n("config"), "type"),
+    post = ("lambda", ("_l0_0",), ("cmp", "==", ("a", n("_l0_0"), "type"),
                                     ("g", f"{ETYPE}.POSTERIOR")))
     for mname, field in (("get_posterior_samples", "positions"),
                          ("get_posterior_transition_infos", "transition_infos")):
@@ -461,8 +461,9 @@ def check(ctx):
         if rt_ is not None and is_call(rt_, "jax.tree_util.tree_map") and rt_[2][0][0] == "lambda":
             lam = rt_[2][0]
             body = lam[2]
-            ok = (is_call(body, f"jax.numpy.{op}") and kw(body, "axis") == n("axis")
-                  and lam[1] == ("*xs",) and body[2] == (n("xs"),)
+            ok = (is_call(body, f"jax.numpy.{op}") and kw(body, "axis", 1) == n("axis")
+                  and len(lam[1]) == 1 and lam[1][0].startswith("*")
+                  and body[2][:1] == (n(lam[1][0].lstrip("*")),)
                   and rt_[2][1] == ("star", n("pytrees")))
         dflt = fi_.node.args.defaults
         ok = ok and len(dflt) == 1 and isinstance(dflt[0], ast.Constant) and dflt[0].value == 0
